@@ -631,6 +631,17 @@ func (x *Exec) specCall(env *SpecEnv, e *ECall) Value {
 			return SeqV{arr}
 		}
 		return SeqV{App(arr.Sort, "shift_"+sortTag(elemOfArr(arr.Sort)), arr, o)}
+	case "sentfield":
+		// sentfield(ch, field, k): integer field of the k-th value sent on ch
+		id := e.Args[1].(*EIdent).Name
+		return sc(Select(x.ghostGet(env.st, "sendlog."+id, arg(0), ArrSort(SInt)), asTerm(arg(2))))
+	case "sentlen":
+		id := e.Args[1].(*EIdent).Name
+		return sc(Select(x.ghostGet(env.st, "sendlen."+id, arg(0), ArrSort(SInt)), asTerm(arg(2))))
+	case "sentbytes":
+		// sentbytes(ch, field, k): contents (at send time) of the []byte field of the k-th value sent on ch
+		id := e.Args[1].(*EIdent).Name
+		return SeqV{Select(x.ghostGet(env.st, "sendseq."+id, arg(0), ArrSort(ArrSort(SInt))), asTerm(arg(2)))}
 	case "sentval":
 		return sc(Select(x.ghostGet(env.st, "sendlog", arg(0), ArrSort(SInt)), asTerm(arg(1))))
 	case "errname":
